@@ -1,4 +1,4 @@
-import SqlgrepModel.Lemmas.AggTotal
+import SqlgrepModel.Lemmas.AggFollowSim
 /-
 C11 — incremental (tail -f) results equal a batch run over the same prefix.
 
@@ -106,18 +106,43 @@ theorem follow_history_coupled {O : Oracles} {q : AggStmt} (envs : List Env) {st
   obtain ⟨rows, hr, hc⟩ := followRun_coupledP envs (coupledP_init O q) h
   exact ⟨rows, hr, by simpa using hc⟩
 
-/- Full statement (`follow_eq_batch_prefix`, aggregate half): for every aggregate statement without LIMIT, every input
-   and every k, the table shown after the k-th line in follow mode equals the table of a batch run over the first k
-   lines. Proved below under the hypotheses inherited from `agg_refines_spec` (C04): the specification fixes the
-   outcome for that prefix (no evaluation error, exact keys, …) and the prefix is outside the open findings D10/D15
-   (the batch run over the prefix then succeeds, by the totality half of the refinement). What is missing for the unconditional statement is a direct simulation
-   between the follow-mode and the batch-mode state (which would also cover the D10 groups and error cases); those
-   cases are decided by the correspondence and by the prefix relation evaluated on the implementation. -/
+/-- **`follow_eq_batch_prefix` (aggregate half).** For every aggregate statement without LIMIT (any aggregates, GROUP BY,
+WHERE, HAVING incl. hidden aggregates, DISTINCT), every input and every k: feed the first k−1 lines' rows `pre` one at a
+time (update + result each), then a k-th row `env` that WHERE admits — the table shown for it is exactly the table of a
+batch run (update only per row, one result at the end) over `pre ++ [env]`. Proved by direct simulation of the two
+states (no reference to the specification, so it also covers the finding classes D10/D15). Hypotheses: both runs got
+that far without an evaluation error, and the GROUP BY keys seen are exact (equal in the value order ⇒ identical; with
+`0.0` and `-0.0` as keys the two modes may show different representatives of the group). -/
+theorem follow_eq_batch_prefix {O : Oracles} {q : AggStmt} (hlim : q.limit = none) (pre : List Env) (env : Env)
+    {sf sf1 sf2 sb : AggState} {out : RowOut}
+    (hfollow : followRun O q pre {} = .ok sf) (hupd : aggUpdateRow O q sf env = .ok (sf1, true))
+    (hres : aggResult O q sf1 = .ok (sf2, out))
+    (hbatch : aggRun O q (pre ++ [env]) {} = .ok sb)
+    (hex : KeysExact (keysOf O q (pre ++ [env]))) :
+    finalResult O q { agg := sb } = .ok out :=
+  follow_table_eq_batch_direct hlim pre env hfollow hupd hres hbatch hex
 
-/-- **C11, aggregate half.** Feed the lines `pre` one at a time (update + result each), then a k-th line that WHERE
-admits: the table shown for it is exactly the table a batch run (update only per line, one result at the end) over
-`pre ++ [env]` produces. -/
-theorem follow_eq_batch_prefix_partial {O : Oracles} {q : AggStmt} (hwf : StmtWF q) (hlim : q.limit = none)
+/-- the same relation between the states after any history: every cell of the follow-mode state is similar to the
+batch-mode state's cell (identical but for published PERCENTILE values), so `execute_result` yields the same table -/
+theorem follow_state_similar_to_batch {O : Oracles} {q : AggStmt} (envs : List Env) {sf sb : AggState}
+    (hf : followRun O q envs {} = .ok sf) (hb : aggRun O q envs {} = .ok sb) (hex : KeysExact (keysOf O q envs)) :
+    (aggResult O q sf).bind (fun r => .ok r.2) = (aggResult O q sb).bind (fun r => (.ok r.2 : Outcome RowOut)) := by
+  obtain ⟨S, hsim, hSk⟩ := sim2_runs envs (sim2_init q) (K := []) (fun k hk => by simp at hk) hf hb
+  apply aggResult_sim2 hsim
+  intro a ha b hb' hab
+  have hk : ∀ k ∈ S, k ∈ keysOf O q envs := fun k hk => by
+    rcases hSk k hk with h | h
+    · simp at h
+    · exact h
+  exact hex a (hk a ha) b (hk b hb') hab
+
+/- A second route to the same statement, through the specification (C04's `agg_refines_spec`): both tables equal the
+   specification's table for the prefix. It needs no hypothesis on the batch run (it succeeds, by the totality half of
+   the refinement) but only applies where the specification fixes the outcome, outside D10/D15. -/
+
+/-- through the specification: the table shown for the k-th line is the table of the batch run over the first k lines,
+and that batch run succeeds -/
+theorem follow_eq_batch_prefix_via_spec {O : Oracles} {q : AggStmt} (hwf : StmtWF q) (hlim : q.limit = none)
     (pre : List Env) (env : Env) {sf sf1 sf2 : AggState} {out : RowOut}
     (hfollow : followRun O q pre {} = .ok sf) (hupd : aggUpdateRow O q sf env = .ok (sf1, true))
     (hres : aggResult O q sf1 = .ok (sf2, out))
@@ -144,5 +169,12 @@ example : ∃ sf sf1 sf2 out, followRun {} exCount [{}] {} = .ok sf ∧ aggUpdat
     deviationClass {} exCount ([({} : Env)] ++ [({} : Env)]) = "" ∧ out.rows = [[.int 2]] ∧
     (aggRun {} exCount ([({} : Env)] ++ [({} : Env)]) {}).bind (fun sb => finalResult {} exCount { agg := sb }) = .ok out :=
   ⟨_, _, _, _, rfl, rfl, rfl, rfl, rfl, rfl, rfl⟩
+
+/-- non-vacuity of `follow_eq_batch_prefix`: the key-exactness hypothesis on the same input, and the conclusion -/
+example : KeysExact (keysOf {} exCount ([({} : Env)] ++ [({} : Env)])) := by
+  intro a ha b hb _
+  simp [keysOf, keyOf, exCount] at ha hb
+  rw [ha, hb]
+example : finalResult {} exCount { agg := (publishPercentiles (publishPercentiles {})) } = finalResult {} exCount {} := rfl
 
 end Sqlgrep.Props.C11
